@@ -97,6 +97,7 @@ def run(ctx: Ctx) -> Result:
             inits[mk] = {"1": qinit(gen.rand_initial_states(rng, m, 3)), "2": qinit(gen.rand_initial_states(rng, m, 5))}
         specs.append({"cid": i, "models": models, "paramsets": psets, "inits": inits, "seeds": {"1": 11, "2": 2024}, "hist": h,
                       "leafs": [rng.choice(["float", "numpy", "jax"]) for _ in h],
+                      "debug": {str(k + 1): rng.random() < 0.3 for k in range(len(h))},
                       "extern_hashseeds": (["1", "2", "random"] if ctx.thorough else [rng.choice(["1", "2", "random"])]) if i % 3 == 0 else []})
     done = history.run_histories(specs, nproc=8)
     traces = [d[0] for d in done]
